@@ -48,7 +48,11 @@ def run_all(ctx, props, faults=1):
     w = vlib.workdir(ctx.pid.lower())
     k = 6 if thorough else 1
     plan = [("A", "random", 40 * k, {}), ("B", "random", 12 * k, {}), ("C", "random", 15 * k, {}),
-            ("D", "natural", 12 * k, {}), ("E", "natural", 8 * k, {}), ("A", "random", 12 * k, {"gd": 1})]
+            ("D", "natural", 12 * k, {}), ("E", "natural", 8 * k, {}), ("A", "random", 12 * k, {"gd": 1}),
+            # sizes exactly at and one past the chunk-count limit, remainders adding up to the limit / one more
+            ("A", "limits", 1, {}), ("G", "limits", 1, {}), ("C", "limits", 1, {}),
+            # every single store call failing in turn (nothing stored / stored then failed / failing at finalize)
+            ("A", "sweep", 1, {"nputs": 8}), ("G", "sweep", 1, {"nputs": 10})]
     counts = {}
     # design model of the pipeline (exhaustive for 2 files x 3 chunks, one injected failure) + negative control
     ctx.model("MC_Upload", "MC_Upload.cfg", workers=12,
@@ -78,7 +82,7 @@ def run_all(ctx, props, faults=1):
             counts[kk] = counts.get(kk, 0) + v
         if i == 0:
             ctx.sample({"config": CONFIGS[cfg], "recorded_trace_prefix": r["sample"][:8]})
-        validate(ctx, t, "%s-%s%s" % (cfg, mode, "-gd" if extra else ""), props)
+        validate(ctx, t, "%s-%s%s" % (cfg, mode, "-gd" if "gd" in extra else ""), props)
     ctx.notes["event_counts"] = counts
     ctx.notes["configurations"] = {k2: CONFIGS[k2] for k2 in sorted({p[0] for p in plan})}
     # vacuity: the interesting branches must have been exercised
